@@ -43,6 +43,10 @@ type inst struct {
 	t0         time.Time
 	shift      time.Duration
 	replica    int
+	pnum       int
+	ver        string
+	probing    bool
+	probes     map[int][2]string // partition -> placement answers (all nodes, usable nodes) at the time of use
 }
 
 func (in *inst) nodeID(k int) string {
@@ -182,54 +186,77 @@ func lerrName(e *cluster.CoordErr) string {
 	return "lerr"
 }
 
-func newInst(slot, port int, e event) *inst {
-	// I  replica  nodes  ids  removings  maxid  auto  balancever  learners
-	in := &inst{slot: slot, port: port, t0: time.Now(), waiting: map[string]map[int]time.Time{}}
-	in.replica, _ = strconv.Atoi(e.f[0])
+func (in *inst) parsePart(f string) cluster.PartitionReplicaInfo {
+	// nodes;ids;removings;maxid;learners
+	p := strings.Split(f, ";")
 	var info cluster.PartitionReplicaInfo
 	info.RaftIDs = map[string]uint64{}
 	info.Removings = map[string]cluster.RemovingInfo{}
-	for _, k := range ints(e.f[1]) {
-		info.RaftNodes = append(info.RaftNodes, in.nodeID(k))
-	}
-	if e.f[2] != "-" {
-		for _, p := range strings.Split(e.f[2], ",") {
-			var k int
-			var id uint64
-			fmt.Sscanf(p, "%d:%d", &k, &id)
-			info.RaftIDs[in.nodeID(k)] = id
+	lrn := map[int]bool{}
+	if len(p) > 4 {
+		for _, k := range ints(p[4]) {
+			lrn[k] = true
+			if info.LearnerNodes == nil {
+				info.LearnerNodes = map[string][]string{}
+			}
+			info.LearnerNodes[learnerRole] = append(info.LearnerNodes[learnerRole], in.learnerID(k, true))
 		}
 	}
-	if e.f[3] != "-" {
-		for _, p := range strings.Split(e.f[3], ",") {
+	idOf := func(k int) string {
+		if lrn[k] {
+			return in.learnerID(k, true)
+		}
+		return in.nodeID(k)
+	}
+	for _, k := range ints(p[0]) {
+		info.RaftNodes = append(info.RaftNodes, in.nodeID(k))
+	}
+	if p[1] != "-" {
+		for _, q := range strings.Split(p[1], ",") {
+			var k int
+			var id uint64
+			fmt.Sscanf(q, "%d:%d", &k, &id)
+			info.RaftIDs[idOf(k)] = id
+		}
+	}
+	if p[2] != "-" {
+		for _, q := range strings.Split(p[2], ",") {
 			var k int
 			var id uint64
 			var v int64
-			fmt.Sscanf(p, "%d:%d:%d", &k, &id, &v)
+			fmt.Sscanf(q, "%d:%d:%d", &k, &id, &v)
 			info.Removings[in.nodeID(k)] = cluster.RemovingInfo{RemoveTime: in.wallOf(v), RemoveReplicaID: id}
 		}
 	}
-	info.MaxRaftID, _ = strconv.ParseInt(e.f[4], 10, 64)
-	if len(e.f) > 7 && e.f[7] != "-" && e.f[7] != "" {
-		info.LearnerNodes = map[string][]string{}
-		for _, k := range ints(e.f[7]) {
-			info.LearnerNodes[learnerRole] = append(info.LearnerNodes[learnerRole], in.learnerID(k, true))
-		}
-		// their ids are among e.f[2] (keyed by the learner's number)
-		for n, id := range info.RaftIDs {
-			if kOf(n) >= 100 {
-				delete(info.RaftIDs, n)
-				info.RaftIDs[in.learnerID(kOf(n), true)] = id
-			}
-		}
+	info.MaxRaftID, _ = strconv.ParseInt(p[3], 10, 64)
+	return info
+}
+
+func newInst(slot, port int, e event) *inst {
+	// I  replica  auto  balancever  <partition 0>  <partition 1> ...   (partition = nodes;ids;removings;maxid;learners)
+	in := &inst{slot: slot, port: port, t0: time.Now(), waiting: map[string]map[int]time.Time{}, probes: map[int][2]string{}}
+	in.replica, _ = strconv.Atoi(e.f[0])
+	in.ver = e.f[2]
+	var infos []cluster.PartitionReplicaInfo
+	for _, f := range e.f[3:] {
+		infos = append(infos, in.parsePart(f))
 	}
-	in.reg = newMemRegister(nsName, in.replica, info)
-	in.tab = &stubTable{ans: map[int]answer{}}
+	in.pnum = len(infos)
+	in.reg = newMemRegister(nsName, in.replica, infos)
+	in.tab = &stubTable{ans: map[stubKey]answer{}}
+	in.tab.touch = func(pid int) {
+		in.reg.mu.Lock()
+		if in.reg.has(pid) {
+			in.reg.touch(pid)
+		}
+		in.reg.mu.Unlock()
+	}
+	in.reg.onGetAll = in.probe
 	stubsMu.Lock()
 	stubs[slot] = in.tab
 	stubsMu.Unlock()
 	me := &cluster.NodeInfo{NodeIP: "127.0.0.1", HttpPort: "1", RedisPort: "2", RegID: 9999}
-	opts := &cluster.Options{AutoBalanceAndMigrate: e.f[5] == "1", BalanceStart: 0, BalanceEnd: 24, BalanceVer: e.f[6]}
+	opts := &cluster.Options{AutoBalanceAndMigrate: e.f[1] == "1", BalanceStart: 0, BalanceEnd: 24, BalanceVer: e.f[2]}
 	in.coord = pdnode_coord.VerifNewPDCoordinator("verif-cluster", me, opts, in.reg)
 	lme := &cluster.NodeInfo{NodeIP: "127.0.0.1", HttpPort: "3", RedisPort: "4", RegID: 9998, LearnerRole: learnerRole}
 	in.lcoord = pdnode_coord.VerifNewPDCoordinator("verif-cluster", lme, opts, in.reg)
@@ -256,26 +283,38 @@ func (in *inst) close() {
 	stubsMu.Unlock()
 }
 
-// placement oracle: what the coordinator's own placement function answers for partition 0 now
-func (in *inst) place(cur map[string]cluster.NodeInfo) string {
-	info := in.reg.stored()
+func listsStr(l [][]string) string {
+	ps := make([]string, len(l))
+	for i, pl := range l {
+		ks := make([]int, len(pl))
+		for j, n := range pl {
+			ks[j] = kOf(n)
+		}
+		ps[i] = joinInts(ks)
+	}
+	return strings.Join(ps, "|")
+}
+
+// what the coordinator's placement function answers for the current register content: "l0|l1|..", "x", "panic"
+func (in *inst) placeLists(cur map[string]cluster.NodeInfo) string {
+	in.reg.mu.Lock()
+	old := make([][]string, len(in.reg.parts))
+	for pid, p := range in.reg.parts {
+		old[pid] = append([]string{}, p.info.GetISR()...)
+	}
+	replica := in.reg.meta.Replica
+	in.reg.mu.Unlock()
 	var first string
-	for i := 0; i < 3; i++ {
+	for i := 0; i < 2; i++ {
+		s := "x"
 		var l [][]string
 		var err *cluster.CoordErr
-		s := "x"
-		if _, p := hx.Recover(func() { l, err = in.coord.VerifPartitionPlacement(info, cur) }); p {
+		if _, p := hx.Recover(func() {
+			l, err = pdnode_coord.VerifGetRebalancedNamespacePartitions(nsName, in.pnum, replica, old, cur, in.ver)
+		}); p {
 			s = "panic"
 		} else if err == nil {
-			if len(l) < 1 {
-				s = "short"
-			} else {
-				ks := make([]int, len(l[0]))
-				for j, n := range l[0] {
-					ks[j] = kOf(n)
-				}
-				s = joinInts(ks)
-			}
+			s = listsStr(l)
 		}
 		if i == 0 {
 			first = s
@@ -286,16 +325,94 @@ func (in *inst) place(cur map[string]cluster.NodeInfo) string {
 	return first
 }
 
+// probe: called by the register whenever the coordinator reads all namespaces (which it does right before every
+// placement query): records, for the partition being worked on, what the placement answers at this moment
+func (in *inst) probe() {
+	if !in.probing {
+		return
+	}
+	in.reg.mu.Lock()
+	cur := -1
+	if n := len(in.reg.touched); n > 0 {
+		cur = in.reg.touched[n-1]
+	}
+	in.reg.mu.Unlock()
+	if cur < 0 {
+		return
+	}
+	all, _ := in.coord.GetAllDataNodes()
+	avail := in.coord.VerifGetCurrentNodes(nil)
+	pick := func(s string) string {
+		if s == "x" || s == "panic" || s == "nondet" {
+			return s
+		}
+		p := strings.Split(s, "|")
+		if cur < len(p) {
+			return p[cur]
+		}
+		return "x"
+	}
+	in.probes[cur] = [2]string{pick(in.placeLists(all)), pick(in.placeLists(avail))}
+}
+
+func (in *inst) begin(pid int, probing bool) {
+	in.reg.mu.Lock()
+	in.reg.touched = nil
+	if pid >= 0 {
+		in.reg.touched = []int{pid}
+	}
+	in.reg.mu.Unlock()
+	in.probes = map[int][2]string{}
+	in.probing = probing
+}
+
+// partitions in the order the coordinator first looked at them during the event, then the others
+func (in *inst) order() string {
+	in.reg.mu.Lock()
+	o := append([]int{}, in.reg.touched...)
+	in.reg.mu.Unlock()
+	seen := map[int]bool{}
+	for _, p := range o {
+		seen[p] = true
+	}
+	for p := 0; p < in.pnum; p++ {
+		if !seen[p] {
+			o = append(o, p)
+		}
+	}
+	return joinInts(o)
+}
+
+func (in *inst) probesStr() string {
+	var ps []string
+	for pid := 0; pid < in.pnum; pid++ {
+		if p, ok := in.probes[pid]; ok {
+			ps = append(ps, fmt.Sprintf("%d=%s/%s", pid, p[0], p[1]))
+		}
+	}
+	if len(ps) == 0 {
+		return "-"
+	}
+	return strings.Join(ps, ";")
+}
+
 func (in *inst) stateStr() string {
 	s := in.coord.VerifState()
 	in.reg.mu.Lock()
-	info := in.reg.info.DeepClone()
-	ep, fl := in.reg.epoch, in.reg.failNext
-	in.reg.mu.Unlock()
-	w := "-"
-	if t, ok := in.waiting[nsName][0]; ok {
-		w = fmt.Sprint(in.vstamp(t.UnixNano()))
+	var ps []string
+	for pid, p := range in.reg.parts {
+		info := p.info.DeepClone()
+		w := "-"
+		if t, ok := in.waiting[nsName][pid]; ok {
+			w = fmt.Sprint(in.vstamp(t.UnixNano()))
+		}
+		ps = append(ps, fmt.Sprintf("%d:%s e=%d w=%s", pid, in.infoStr(&info), p.epoch, w))
 	}
+	fl := in.reg.failNext
+	rp := in.reg.meta.Replica
+	md := in.reg.mode
+	v, okv := in.reg.kv["placedriver:learner:need_start_learner:"+learnerRole]
+	in.reg.mu.Unlock()
 	dn := make([]int, 0, len(s.DataNodes))
 	for _, n := range s.DataNodes {
 		dn = append(dn, kOf(n))
@@ -325,21 +442,15 @@ func (in *inst) stateStr() string {
 	}
 	sort.Ints(ln)
 	ls := "-"
-	in.reg.mu.Lock()
-	v, okv := in.reg.kv["placedriver:learner:need_start_learner:"+learnerRole]
-	in.reg.mu.Unlock()
 	if okv {
 		ls = "0"
 		if v == "true" {
 			ls = "1"
 		}
 	}
-	in.reg.mu.Lock()
-	rp := in.reg.meta.Replica
-	md := in.reg.mode
-	in.reg.mu.Unlock()
-	return fmt.Sprintf("reg[%s e=%d] wait=%s un=%d au=%d ne=%d st=%d dn=%s rn=%s fail=%d ln=%s ls=%s rp=%d up=%d md=%d", in.infoStr(&info), ep, w,
-		b(s.Unstable), b(s.AutoBalance), s.NodesEpoch, s.StableNodeNum, joinInts(dn), rns, fl, joinInts(ln), ls, rp, b(s.Upgrading), md)
+	return fmt.Sprintf("reg[%s] un=%d au=%d ne=%d st=%d dn=%s rn=%s fail=%d ln=%s ls=%s rp=%d up=%d md=%d",
+		strings.Join(ps, " ; "), b(s.Unstable), b(s.AutoBalance), s.NodesEpoch, s.StableNodeNum, joinInts(dn), rns, fl,
+		joinInts(ln), ls, rp, b(s.Upgrading), md)
 }
 
 func (in *inst) writesStr() string {
@@ -353,19 +464,21 @@ func (in *inst) writesStr() string {
 		if a.ok {
 			r = "ok"
 		}
-		p[i] = fmt.Sprintf("{%s g=%d %s}", in.infoStr(&a.info), a.oldGen, r)
+		p[i] = fmt.Sprintf("{p=%d %s g=%d %s}", a.pid, in.infoStr(&a.info), a.oldGen, r)
 	}
 	return strings.Join(p, "")
 }
 
-func (in *inst) freshInfo() *cluster.PartitionMetaInfo {
-	return in.reg.stored()
+func atoi(s string) int {
+	v, _ := strconv.Atoi(s)
+	return v
 }
 
-// exec runs one event on the real coordinator; returns "ret | writes | state".
-// Oracle fields of the event are filled in.
+// exec runs one event on the real coordinators; returns "ret | writes | state".
+// Oracle fields of the event (iteration order, placement answers) are filled in.
 func (in *inst) exec(e *event) string {
 	ret := "-"
+	acted := "-"
 	msg, panicked := hx.Recover(func() {
 		switch e.kind {
 		case "N":
@@ -390,28 +503,33 @@ func (in *inst) exec(e *event) string {
 			in.reg.deliver(l)
 			ret = fmt.Sprint(len(in.coord.VerifDrainCheckChan()) > 0)
 		case "A":
+			// A  pid@k=members/synced;k=!;...   (one field per partition)
 			in.tab.mu.Lock()
-			for _, p := range strings.Split(e.f[0], ";") {
-				kv := strings.SplitN(p, "=", 2)
-				k, _ := strconv.Atoi(kv[0])
-				if kv[1] == "!" {
-					delete(in.tab.ans, k)
-					continue
-				}
-				ms := strings.SplitN(kv[1], "/", 2)
-				a := answer{synced: ms[1] == "1"}
-				switch ms[0] {
-				case "x":
-					a.memErr = true
-				case "-":
-				default:
-					for _, m := range strings.Split(ms[0], ",") {
-						var n, id uint64
-						fmt.Sscanf(m, "%d:%d", &n, &id)
-						a.members = append(a.members, [2]uint64{n, id})
+			for _, f := range e.f {
+				pa := strings.SplitN(f, "@", 2)
+				pid := atoi(pa[0])
+				for _, p := range strings.Split(pa[1], ";") {
+					kv := strings.SplitN(p, "=", 2)
+					k, _ := strconv.Atoi(kv[0])
+					if kv[1] == "!" {
+						delete(in.tab.ans, stubKey{k, pid})
+						continue
 					}
+					ms := strings.SplitN(kv[1], "/", 2)
+					a := answer{synced: ms[1] == "1"}
+					switch ms[0] {
+					case "x":
+						a.memErr = true
+					case "-":
+					default:
+						for _, m := range strings.Split(ms[0], ",") {
+							var n, id uint64
+							fmt.Sscanf(m, "%d:%d", &n, &id)
+							a.members = append(a.members, [2]uint64{n, id})
+						}
+					}
+					in.tab.ans[stubKey{k, pid}] = a
 				}
-				in.tab.ans[k] = a
 			}
 			in.tab.mu.Unlock()
 		case "T":
@@ -424,39 +542,57 @@ func (in *inst) exec(e *event) string {
 				}
 			}
 			in.reg.mu.Lock()
-			for n, r := range in.reg.info.Removings {
-				if r.RemoveTime != 0 {
-					r.RemoveTime -= int64(dd)
-					in.reg.info.Removings[n] = r
+			for _, p := range in.reg.parts {
+				for n, r := range p.info.Removings {
+					if r.RemoveTime != 0 {
+						r.RemoveTime -= int64(dd)
+						p.info.Removings[n] = r
+					}
 				}
 			}
 			in.reg.mu.Unlock()
 		case "C":
-			// C full single placeAll placeAvail
-			all, _ := in.coord.GetAllDataNodes()
-			avail, _ := in.coord.VerifGetCurrentNodesWithEpoch(nil)
-			e.f[2] = in.place(all)
-			e.f[3] = in.place(avail)
-			var fi *cluster.NamespaceNameInfo
-			if e.f[1] == "1" {
-				fi = &cluster.NamespaceNameInfo{NamespaceName: nsName, NamespacePartition: 0}
+			// C  order  probes : the ticker's full check
+			in.begin(-1, true)
+			in.coord.VerifDoCheckNamespaces(in.monitor, nil, in.waiting, true)
+			in.probing = false
+			e.f[0] = in.order()
+			e.f[1] = in.probesStr()
+		case "CS":
+			// CS pid placeAll placeAvail : a triggered check of one partition
+			pid := atoi(e.f[0])
+			in.begin(pid, true)
+			in.coord.VerifDoCheckNamespaces(in.monitor, &cluster.NamespaceNameInfo{NamespaceName: nsName, NamespacePartition: pid},
+				in.waiting, false)
+			in.probing = false
+			e.f[1], e.f[2] = "x", "x"
+			if p, ok := in.probes[pid]; ok {
+				e.f[1], e.f[2] = p[0], p[1]
 			}
-			in.coord.VerifDoCheckNamespaces(in.monitor, fi, in.waiting, e.f[0] == "1")
 		case "M":
-			// M epochDelta place
-			info := in.freshInfo()
+			// M pid epochDelta place
+			pid := atoi(e.f[0])
+			info := in.reg.stored(pid)
 			cur, ep := in.coord.VerifGetCurrentNodesWithEpoch(nil)
-			e.f[1] = in.place(cur)
-			d, _ := strconv.Atoi(e.f[0])
-			ret = errName(in.coord.VerifHandleNamespaceMigrate(info, cur, ep+int64(d)))
+			in.begin(pid, true)
+			ret = errName(in.coord.VerifHandleNamespaceMigrate(info, cur, ep+int64(atoi(e.f[1]))))
+			in.probing = false
+			e.f[2] = "x"
+			if p, ok := in.probes[pid]; ok {
+				e.f[2] = p[1]
+			}
 		case "D":
-			k, _ := strconv.Atoi(e.f[0])
-			ret = errName(in.coord.VerifAddNamespaceToNode(in.freshInfo(), in.nodeID(k)))
+			pid := atoi(e.f[0])
+			in.begin(pid, false)
+			ret = errName(in.coord.VerifAddNamespaceToNode(in.reg.stored(pid), in.nodeID(atoi(e.f[1]))))
 		case "R":
-			k, _ := strconv.Atoi(e.f[0])
-			ret = errName(in.coord.VerifRemoveNamespaceFromNode(in.freshInfo(), in.nodeID(k)))
+			pid := atoi(e.f[0])
+			in.begin(pid, false)
+			ret = errName(in.coord.VerifRemoveNamespaceFromNode(in.reg.stored(pid), in.nodeID(atoi(e.f[1]))))
 		case "F":
-			in.coord.VerifRemoveNamespaceFromRemovings(in.freshInfo())
+			pid := atoi(e.f[0])
+			in.begin(pid, false)
+			in.coord.VerifRemoveNamespaceFromRemovings(in.reg.stored(pid))
 		case "X":
 			n, _ := strconv.Atoi(e.f[0])
 			in.reg.mu.Lock()
@@ -465,7 +601,9 @@ func (in *inst) exec(e *event) string {
 		case "O":
 			in.coord.SwitchAutoBalance(e.f[0] == "1")
 		case "B":
-			e.f[0] = in.place(in.coord.VerifGetCurrentNodes(nil))
+			// B order lists
+			e.f[1] = in.placeLists(in.coord.VerifGetCurrentNodes(nil))
+			in.begin(-1, false)
 			bm := make(chan struct{})
 			var once sync.Once
 			in.reg.mu.Lock()
@@ -475,12 +613,15 @@ func (in *inst) exec(e *event) string {
 			in.reg.mu.Lock()
 			in.reg.onAttempt = nil
 			in.reg.mu.Unlock()
+			e.f[0] = in.order()
 			ret = fmt.Sprintf("%v,%v", moved, allBalanced)
 		case "K":
 			k, _ := strconv.Atoi(e.f[0])
 			in.coord.MarkNodeAsRemoving(in.nodeID(k))
 		case "P":
-			e.f[0] = in.place(in.coord.VerifGetCurrentNodes(nil))
+			// P acted lists
+			e.f[1] = in.placeLists(in.coord.VerifGetCurrentNodes(nil))
+			in.begin(-1, false)
 			st := in.coord.VerifState()
 			if len(st.RemovingNodes) > 0 { // the ticker body of handleRemovingNodes
 				closed := make(chan struct{})
@@ -509,24 +650,31 @@ func (in *inst) exec(e *event) string {
 			in.coord.SetClusterUpgradeState(e.f[0] == "1") // leaving the upgrade state sleeps 1 s before triggering a check
 			in.coord.VerifDrainCheckChan()
 		case "LC":
+			in.begin(-1, false)
 			in.lcoord.VerifDoCheckNamespacesForLearner(in.monitor)
+			e.f[0] = in.order()
 		case "LS":
 			in.lcoord.SwitchStartLearner(e.f[0] == "1")
 		case "LA":
-			k, _ := strconv.Atoi(e.f[0])
-			ret = lerrName(in.lcoord.VerifAddNsLearnerToNode(in.freshInfo(), in.learnerID(k, true)))
+			pid := atoi(e.f[0])
+			in.begin(pid, false)
+			ret = lerrName(in.lcoord.VerifAddNsLearnerToNode(in.reg.stored(pid), in.learnerID(atoi(e.f[1]), true)))
 		case "LL":
-			k, _ := strconv.Atoi(e.f[0])
-			ret = lerrName(in.lcoord.VerifUpdateNsLearnerLeader(in.freshInfo(), in.learnerID(k, true)))
+			pid := atoi(e.f[0])
+			in.begin(pid, false)
+			ret = lerrName(in.lcoord.VerifUpdateNsLearnerLeader(in.reg.stored(pid), in.learnerID(atoi(e.f[1]), true)))
 		case "LR":
-			k, _ := strconv.Atoi(e.f[0])
-			if err := in.lcoord.VerifRemoveNsLearnerFromNode(nsName, 0, in.learnerID(k, true), e.f[1] == "1"); err != nil {
+			pid := atoi(e.f[0])
+			in.begin(pid, false)
+			if err := in.lcoord.VerifRemoveNsLearnerFromNode(nsName, pid, in.learnerID(atoi(e.f[1]), true), e.f[2] == "1"); err != nil {
 				ret = "lerr"
 			} else {
 				ret = "lok"
 			}
 		case "LX":
-			if err := in.lcoord.VerifRemoveNsAllLearners(in.freshInfo()); err != nil {
+			pid := atoi(e.f[0])
+			in.begin(pid, false)
+			if err := in.lcoord.VerifRemoveNsAllLearners(in.reg.stored(pid)); err != nil {
 				ret = "lerr"
 			} else {
 				ret = "lok"
@@ -535,9 +683,20 @@ func (in *inst) exec(e *event) string {
 			panic("unknown event kind " + e.kind)
 		}
 	})
+	in.probing = false
 	if panicked {
-		if os.Getenv("VERIF_DEBUG") != "" { fmt.Fprintln(os.Stderr, "PANIC:", msg) }
+		if os.Getenv("VERIF_DEBUG") != "" {
+			fmt.Fprintln(os.Stderr, "PANIC:", msg)
+		}
 		ret = "panic"
 	}
-	return ret + " | " + in.writesStr() + " | " + in.stateStr()
+	w := in.writesStr()
+	if e.kind == "P" {
+		// which partition processRemovingNodes acted on is visible only through its update attempt
+		if i := strings.Index(w, "{p="); i >= 0 {
+			fmt.Sscanf(w[i:], "{p=%s", &acted)
+		}
+		e.f[0] = acted
+	}
+	return ret + " | " + w + " | " + in.stateStr()
 }
